@@ -60,6 +60,7 @@ class Monitor:
         self.step = 0
         self.sender_closes = 0  # sender handles closed or dropped so far
         self.zombie_pubs = set()
+        self.gf = {}            # live future id -> {"rx", "pend": waker or None, "woken", "over"}
         self.conv_after_close = False   # some receiver handle was converted after close() returned Ok on it (F-07)
         self.async_drop_closed = False  # some async receiver handle was dropped after close() returned Ok on it
         for x in self.tx.values():
@@ -108,6 +109,11 @@ class Monitor:
             if m in x["closed_pubs"]:
                 self.hit("C08:closed-rx-still-receives",
                          "receiver %d was closed (hence unsubscribed) when %r was published, yet it received it" % (r, m))
+            elif x["closed"]:
+                # the exception class of C08_routing_except_F14: any routing anomaly on a handle that was closed
+                # (its mailbox is polluted by / was filled with messages delivered through the stale registration)
+                self.hit("C08:closed-rx-still-receives",
+                         "receiver %d (closed earlier, stale dispatcher registration) obtained %r, reference mailbox holds %r" % (r, m, x["q"]))
             elif m in x["got"] and self.pubs.get(m, 0) <= x["got"].count(m):
                 self.hit("C08:dup", "receiver %d obtained %r twice" % (r, m))
             elif m in x["q"]:
@@ -123,7 +129,8 @@ class Monitor:
                 x["q"].remove(m)
         elif rs[0] in NOTYET:
             if x["q"]:
-                self.hit("C08:lost", "receiver %d reports %s but %r was published to it and fitted its mailbox" % (r, rs[0], x["q"]))
+                self.hit("C08:closed-rx-still-receives" if x["closed"] else "C08:lost",
+                         "receiver %d reports %s but %r was published to it and fitted its mailbox" % (r, rs[0], x["q"]))
             elif not x["closed"] and not self.any_open():
                 if x["reach"]:
                     self.hit("C08:no-disc", "receiver %d reports %s: all senders gone, mailbox drained, and it was subscribed when the last sender went" % (r, rs[0]))
@@ -144,17 +151,39 @@ class Monitor:
                 else:
                     self.hit("C08:disc-no-sender-closed", "receiver %d observed Disconnected although no sender handle was ever closed or dropped (open: %r)" % (r, opn))
 
+    def c06_after(self):
+        """after each op: a pending, un-woken future whose reference mailbox holds a message"""
+        for f, e in sorted(self.gf.items()):
+            x = self.rx.get(e["rx"])
+            if e["pend"] is not None and not e["woken"] and x and x["live"] and x["q"] and not x["closed"]:
+                self.hit("C06:missed-wake-overwritten" if e["over"] else "C06:missed-wake",
+                         "future %d (receiver %d) returned Pending with waker %d, was not woken since, and %r is in its mailbox" % (
+                             f, e["rx"], e["pend"], x["q"][0]))
+
     def run(self):
+        self._run()
+        return self.hits
+
+    def _run(self):
         for i, (op, (rs, ws)) in enumerate(zip(self.ops, self.outs)):
             self.step = i
             if not rs:
                 break
+            for e in self.gf.values():
+                if e["pend"] is not None and e["pend"] in ws:
+                    e["woken"] = True
+            if self._one(op, rs, ws) == "stop":
+                break
+            self.c06_after()
+
+    def _one(self, op, rs, ws):
+        if True:
             if rs[0] in ("PANIC", "HANG"):
                 self.hit("C08:" + rs[0].lower(), "operation did not return normally")
-                break
+                return "stop"
             k, a = op[0], [int(v) for v in op[1:]]
             if rs[0] in ("nohandle", "badid", "noapi", "busy"):
-                continue
+                return None
             if k == "pub" and rs[0] in ("ok", "closed"):
                 t = self.tx[a[0]]
                 if rs[0] == "ok" and t["self_closed"]:
@@ -230,14 +259,25 @@ class Monitor:
                 x["kind"] = "a" if x["kind"] == "s" else "s"
             elif k == "mk" and rs[0] == "ok":
                 self.futs[a[0]] = a[1]
+                self.gf[a[0]] = {"rx": a[1], "pend": None, "woken": False, "over": False}
             elif k == "df" and rs[0] == "ok":
                 self.futs.pop(a[0], None)
+                self.gf.pop(a[0], None)
             elif k in ("try", "rto", "pn"):
                 self.recv(a[0], rs)
             elif k == "poll":
                 if a[0] in self.futs:
                     self.recv(self.futs[a[0]], rs)
-        return self.hits
+                    e = self.gf.get(a[0])
+                    if e is not None:
+                        if rs[0] == "pending":
+                            for f2, e2 in self.gf.items():
+                                if f2 != a[0] and e2["rx"] == e["rx"] and e2["pend"] is not None and not e2["woken"]:
+                                    e2["over"] = True
+                            e["pend"], e["woken"], e["over"] = a[1], False, False
+                        else:
+                            e["pend"] = None
+        return None
 
 
 class TopicEngine(Engine):
@@ -423,6 +463,17 @@ PROPS = {
         "covers": "topic (sync+async): routing exactness, full-mailbox-only omission, dropped counter, publish non-blocking, "
                   "Disconnected iff all sender handles gone and drained -- full statement proved for the patched model, "
                   "refuted on the faithful model by F-04/F-05/F-14 with the exact exception classes proved",
+        "engine_info": _INFO,
+    },
+    "C06": {
+        "engines": [ENGINE],
+        "witness": {
+            "F-T1": (ENGINE, _W + " a 2 sub 0 0 mk 0 0 mk 1 0 poll 0 0 poll 1 1 pub 0 0 1 pub 0 0 2 poll 1 1", "C06:missed-wake-overwritten"),
+        },
+        "assumptions": _ASSUME,
+        "covers": "topic RecvFuture (async receivers): every pending future whose registration was not overwritten by another "
+                  "future of the same receiver is woken when its poll becomes Ready; dropping a future is harmless -- all "
+                  "create/poll/drop histories; the single waiter slot loses the earlier of two pending futures (F-T1, refuted)",
         "engine_info": _INFO,
     },
     "C04": {
